@@ -29,8 +29,9 @@ DevMap(c, r, ideal, ds) ==
 
 Case(c, r) ==
   LET ideal == DecideD(c, r, {})
-      singles == DevMap(c, r, ideal, Open)
       full == DecideD(c, r, Open)
+      \* (when the as-built outcome is the ideal one no deviation is listed)
+      singles == IF full = ideal THEN <<>> ELSE DevMap(c, r, ideal, Open)
       known == {ideal} \cup {singles[d] : d \in DOMAIN singles}
       \* the as-built outcome needs several deviations at once: attribute it
       \* to one that has no entry of its own and that matters
